@@ -44,8 +44,15 @@ def call_segmentation(n, mat, mode, scale=1, glob=False):
     # glob: False -> no global parameter, three-argument cost; otherwise a REQUIRED fourth argument whose value is handed over
     # (0 and 0.0 are legal values - a penalty or a tolerance of zero - like 7)
     gval = [7, 0, 0.0][(n + sum(mat[0]) + mode) % 3] if glob else None
+    # history (every other call with a global parameter): the same track object was segmented before with the same cost
+    # function and ANOTHER value of the global parameter, for which the function returns other costs (a penalty, a tolerance)
+    again = glob and (n + sum(mat[0]) + sum(mat[-1])) % 2 == 0
+    if again:
+        e["hist"] = "same track and cost function, another global parameter before"
     if glob:
         def cost(track, i, j, g):
+            if again and g == "decoy":
+                return mat[n - 1 - max(i, j + 1)][n - 1 - min(i, j + 1)] / scale + (j + 1 - i) % 2
             if g != gval or type(g) is not type(gval):
                 raise ValueError("global parameter %r handed over as %r" % (gval, g))
             return mat[min(i, j + 1)][max(i, j + 1)] / scale
@@ -54,6 +61,8 @@ def call_segmentation(n, mat, mode, scale=1, glob=False):
             return mat[min(i, j + 1)][max(i, j + 1)] / scale
     try:
         with core.quiet():
+            if again:
+                optimalSegmentation(tr, cost, glob_param="decoy", mode=mode, verbose=False)
             r = optimalSegmentation(tr, cost, glob_param=gval, mode=mode, verbose=False)
         e["res"] = [int(v) for v in r]
     except (Exception, SystemExit) as ex:
@@ -69,10 +78,16 @@ def call_simplification(n, mat, scale=1):
     tr = tk.mk_track(list(range(n + 1)))
     e = {"ev": "optimalSimplification", "n": n, "c": mat, "mode": 0, "raised": False, "res": []}
 
+    again = (n + sum(mat[0])) % 2 == 0        # history: the same track simplified before with another tolerance (other costs)
+
     def cost(track, i, j, eps):
+        if eps == 4:
+            return mat[n - 1 - max(i, j + 1)][n - 1 - min(i, j + 1)] / scale + (j + 1 - i) % 2
         return mat[min(i, j + 1)][max(i, j + 1)] / scale
     try:
         with core.quiet():
+            if again:
+                optimalSimplification(tr, cost, 4)
             out = optimalSimplification(tr, cost, 3)
         e["res"] = [int(round(out.getObs(k).position.getX())) for k in range(out.size())]
     except (Exception, SystemExit) as ex:
